@@ -61,6 +61,38 @@ Section PencilProof.
     rewrite <- XMXt_msub. apply XMXt_ext. intros s t _ _. reflexivity.
   Qed.
 
+  (* entry (i,j) of X M X^T depends on X only through rows i and j *)
+  Lemma XMXt_ext_rows N (X X' M : mat F) i j :
+    (forall s, s < N -> X i s = X' i s) -> (forall t, t < N -> X j t = X' j t) ->
+    XMXt N X M i j = XMXt N X' M i j.
+  Proof.
+    intros Hi Hj. rewrite !XMXt_entry. apply sumn_ext. intros t Ht. apply sumn_ext. intros s Hs.
+    rewrite (Hi s Hs), (Hj t Ht). reflexivity.
+  Qed.
+
+  Lemma XMXt_ext_X N (X X' M : mat F) i j :
+    (forall f s, s < N -> X f s = X' f s) -> XMXt N X M i j = XMXt N X' M i j.
+  Proof. intros H. apply XMXt_ext_rows; intros s Hs; apply H; assumption. Qed.
+
+  Lemma compute_mean0_eq N (X : mat F) f :
+    compute_mean0 X N f = sumn N (fun s => X f s) / of_nat N.
+  Proof. unfold compute_mean0. rewrite feature_sum_eq. reflexivity. Qed.
+
+  (* scatter of the centred features = X J X^T *)
+  Lemma centred_scatter N (X : mat F) i j :
+    of_nat N <> 0 -> XMXt N (centred X N) mI i j = XMXt N X (Jn N) i j.
+  Proof.
+    intros HN. rewrite XMXt_Jn, !XMXt_mI, XMXt_mconst. unfold centred.
+    rewrite !compute_mean0_eq.
+    set (Si := sumn N (fun s => X i s)). set (Sj := sumn N (fun t => X j t)).
+    rewrite (sumn_ext N _ (fun t => X i t * X j t - (Sj / of_nat N) * X i t
+                                    - (Si / of_nat N) * X j t + Si / of_nat N * (Sj / of_nat N)))
+      by (intros; ring).
+    rewrite sumn_add, !sumn_sub, !sumn_mul_l, sumn_const.
+    change (sumn N (X i)) with Si. change (sumn N (X j)) with Sj.
+    field. assumption.
+  Qed.
+
   (* ====================== the CURRENT routines (after fix F9) ====================== *)
   Theorem npe_problem_gen D N (X : mat F) (W : sparse F) :
     indices_ok N W ->
@@ -82,25 +114,36 @@ Section PencilProof.
     - rewrite mean_update_upper, rhs_upper_plain. unfold lltsa_rhs. rewrite XMXt_Jn. reflexivity.
   Qed.
 
-  Theorem lltsa_problem_gen D N (X : mat F) (W : sparse F) :
+  (* after F25, before F42: uncentred lhs *)
+  Theorem lltsa_f25_pencil_gen D N (X : mat F) (W : sparse F) :
     indices_ok N W ->
-    is_pencil D (lltsa_lhs N X W) (lltsa_rhs N X) (lltsa_fixed X N W).
+    is_pencil D (lltsa_lhs_f25 N X W) (lltsa_rhs N X) (lltsa_fixed X N W).
   Proof.
     intros Hok. split; intros i j _ _; cbn [p_lhs p_rhs lltsa_fixed]; unfold sym_from_upper.
     - apply lhs_upper. assumption.
     - rewrite mean_update_upper, rhs_upper_plain. unfold lltsa_rhs. rewrite XMXt_Jn. reflexivity.
   Qed.
 
+  (* CURRENT (after F42): both sides from the centred features *)
+  Theorem lltsa_problem_gen D N (X : mat F) (W : sparse F) :
+    of_nat N <> 0 -> indices_ok N W ->
+    is_pencil D (lltsa_lhs N X W) (lltsa_rhs N X) (lltsa_centred X N W).
+  Proof.
+    intros HN Hok. split; intros i j _ _; cbn [p_lhs p_rhs lltsa_centred]; unfold sym_from_upper.
+    - apply lhs_upper. assumption.
+    - rewrite rhs_upper_plain. apply centred_scatter. assumption.
+  Qed.
+
   (* the F9-only lhs differs from the property's by exactly (X 1)(X 1)^T / N *)
   Theorem lltsa_f9_lhs_gap N (X : mat F) (W : sparse F) i j :
     lltsa_lhs_f9 N X W i j =
-    lltsa_lhs N X W i j - / of_nat N * (sumn N (fun s => X i s) * sumn N (fun t => X j t)).
-  Proof. unfold lltsa_lhs_f9, lltsa_lhs. rewrite XMXt_msub, XMXt_mconst. reflexivity. Qed.
+    lltsa_lhs_f25 N X W i j - / of_nat N * (sumn N (fun s => X i s) * sumn N (fun t => X j t)).
+  Proof. unfold lltsa_lhs_f9, lltsa_lhs_f25. rewrite XMXt_msub, XMXt_mconst. reflexivity. Qed.
 
-  (* ... so on centred features (all feature sums zero) it is the property's lhs *)
+  (* ... so on centred features (all feature sums zero) it is X (W+W^T) X^T *)
   Theorem lltsa_f9_centred_ok D N (X : mat F) (W : sparse F) :
     indices_ok N W -> (forall f, f < D -> sumn N (fun s => X f s) = 0) ->
-    is_pencil D (lltsa_lhs N X W) (lltsa_rhs N X) (lltsa_repaired X N W).
+    is_pencil D (lltsa_lhs_f25 N X W) (lltsa_rhs N X) (lltsa_repaired X N W).
   Proof.
     intros Hok Hc. destruct (lltsa_f9_pencil_gen D N X W Hok) as [HA HB]. split; [|assumption].
     intros i j Hi Hj. rewrite (HA i j Hi Hj), lltsa_f9_lhs_gap, (Hc i Hi). ring.
@@ -134,8 +177,17 @@ Section PencilProof.
   Qed.
 
   Theorem lltsa_seen_gen D N (X : mat F) (W : sparse F) :
+    of_nat N <> 0 -> indices_ok N W ->
+    solver_sees D (lltsa_lhs N X W) (lltsa_rhs N X) (lltsa_centred X N W).
+  Proof.
+    intros HN Hok. apply seen_sym_from_upper; intros i j.
+    - apply lhs_upper. assumption.
+    - rewrite rhs_upper_plain. apply centred_scatter. assumption.
+  Qed.
+
+  Theorem lltsa_f25_seen_gen D N (X : mat F) (W : sparse F) :
     indices_ok N W ->
-    solver_sees D (lltsa_lhs N X W) (lltsa_rhs N X) (lltsa_fixed X N W).
+    solver_sees D (lltsa_lhs_f25 N X W) (lltsa_rhs N X) (lltsa_fixed X N W).
   Proof.
     intros Hok. apply seen_sym_from_upper; intros i j.
     - apply lhs_upper. assumption.
@@ -166,6 +218,7 @@ Section PencilProof.
     msym D (p_lhs (npe_repaired X N W)) /\ msym D (p_rhs (npe_repaired X N W)) /\
     msym D (p_lhs (lltsa_repaired X N W)) /\ msym D (p_rhs (lltsa_repaired X N W)) /\
     msym D (p_lhs (lltsa_fixed X N W)) /\ msym D (p_rhs (lltsa_fixed X N W)) /\
+    msym D (p_lhs (lltsa_centred X N W)) /\ msym D (p_rhs (lltsa_centred X N W)) /\
     msym D (p_lhs (lpp_repaired X N W dv)) /\ msym D (p_rhs (lpp_repaired X N W dv)).
   Proof. repeat split; apply read_upper_sym. Qed.
 
@@ -325,12 +378,12 @@ Section PencilProof.
   Qed.
 
   Theorem lltsa_solution D d N (X : mat F) (W : sparse F) (V P : mat F) lam :
-    indices_ok N W -> d <= D ->
-    oracle_contract D (p_lhs (seen (lltsa_fixed X N W))) (p_rhs (seen (lltsa_fixed X N W))) V lam ->
+    of_nat N <> 0 -> indices_ok N W -> d <= D ->
+    oracle_contract D (p_lhs (seen (lltsa_centred X N W))) (p_rhs (seen (lltsa_centred X N W))) V lam ->
     select_cols D d V = Ok P ->
     gen_eig_solution D d (lltsa_lhs N X W) (lltsa_rhs N X) P lam.
   Proof.
-    intros Hok Hd Hc Hsel. destruct (lltsa_seen_gen D N X W Hok) as [HA HB].
+    intros HN Hok Hd Hc Hsel. destruct (lltsa_seen_gen D N X W HN Hok) as [HA HB].
     apply (gen_eig_solution_meq D d _ _ _ _ P P lam HA HB (meq_refl _ _ _)).
     apply (selected_solves D d _ _ V); assumption.
   Qed.
@@ -400,7 +453,7 @@ Section PencilProof.
 
   Theorem compute_mean_is_mean N (X : mat F) f :
     compute_mean X N f = sumn N (fun s => X f s) / of_nat N.
-  Proof. unfold compute_mean. rewrite feature_sum_eq. reflexivity. Qed.
+  Proof. unfold compute_mean. apply compute_mean0_eq. Qed.
 
   Theorem embedding_columns_sum_to_zero D N (P X : mat F) j :
     of_nat N <> 0 ->
